@@ -94,7 +94,9 @@ class BaseSliver(ABC):
 
     def set_capacities(self, cap: Capacities) -> None:
         assert (cap is None or isinstance(cap, Capacities))
-        assert(cap is None or isinstance(cap, Capacities))
+        if cap is not None:
+            # fields may have been assigned directly on the object: nothing unchecked enters a sliver
+            cap._set_fields(**cap.__dict__)
         self.capacities = cap
 
     def get_capacities(self) -> Capacities:
@@ -109,6 +111,9 @@ class BaseSliver(ABC):
 
     def set_labels(self, lab: Labels) -> None:
         assert(lab is None or isinstance(lab, Labels))
+        if lab is not None:
+            # fields may have been assigned directly on the object: nothing unchecked enters a sliver
+            lab._set_fields(**{k: v for k, v in lab.__dict__.items() if v is not None})
         self.labels = lab
 
     def get_labels(self) -> Labels:
@@ -181,6 +186,10 @@ class BaseSliver(ABC):
 
     def set_tags(self, tags: Tags) -> None:
         assert(tags is None or isinstance(tags, Tags))
+        if tags is not None:
+            # the list may have been changed directly on the object: nothing unchecked enters a sliver
+            for t in tags.tags:
+                Tags._check(t)
         self.tags = tags
 
     def get_tags(self) -> Tags or None:
